@@ -208,19 +208,27 @@ func (c *Ctx) mergerClass(fn *ssa.Function) string {
 	if allSecond {
 		return "replace"
 	}
+	// what the merger calls, directly or through helpers of its own package it delegates to (two levels)
 	callsConv := map[string]bool{}
-	for _, b := range fn.Blocks {
-		for _, in := range b.Instrs {
-			if call, ok := in.(*ssa.Call); ok {
+	seen := map[*ssa.Function]bool{}
+	var scan func(f *ssa.Function, d int)
+	scan = func(f *ssa.Function, d int) {
+		if f == nil || seen[f] || d == 0 || f.Blocks == nil {
+			return
+		}
+		seen[f] = true
+		for _, b := range f.Blocks {
+			for _, in := range b.Instrs {
+				call, ok := in.(*ssa.Call)
+				if !ok {
+					continue
+				}
 				if cal := call.Call.StaticCallee(); cal != nil && c.P.InModule(cal) {
 					callsConv[cal.Name()] = true
+					if cal.Pkg == fn.Pkg && cal.Name() != "mergeMappings" && cal.Name() != "mergeYaml" {
+						scan(cal, d-1)
+					}
 				}
-			}
-		}
-	}
-	for _, b := range fn.Blocks {
-		for _, in := range b.Instrs {
-			if call, ok := in.(*ssa.Call); ok {
 				// membership test before the append, by == or by a predicate
 				if sn := staticName(&call.Call); strings.HasSuffix(sn, "slices.Contains") || strings.HasSuffix(sn, "slices.ContainsFunc") {
 					callsConv["slices.Contains"] = true
@@ -228,6 +236,7 @@ func (c *Ctx) mergerClass(fn *ssa.Function) string {
 			}
 		}
 	}
+	scan(fn, 3)
 	switch {
 	case callsConv["convertIntoSequence"] && callsConv["slices.Contains"]:
 		return "self-dedup"
@@ -493,7 +502,7 @@ func (c *Ctx) hookKinds(out *[]report.Obligation, rule string) map[string]bool {
 				continue
 			}
 			// receiver must be the `to` parameter (Param#1)
-			if len(call.Call.Args) == 0 || call.Call.Args[0] != ssa.Value(fn.Params[1]) {
+			if len(call.Call.Args) == 0 || len(fn.Params) < 2 || call.Call.Args[0] != ssa.Value(fn.Params[1]) {
 				continue
 			}
 			// must sit under the string arm: some dominating fact compares a Kind() of from with 24
